@@ -231,6 +231,40 @@ def runOps (e : Engine σ τ) : List Op → Engine σ τ
   | .exec c :: ops => runOps (exec P save load clock view hash t0 e c) ops
   | .rollback i :: ops => runOps (rollback e i) ops
 
+/-! #### commands the engine refuses with an exception
+
+`_exec_operation` takes the store OUT of the history (`move_store()`: the cache is dropped) before the first play; when
+that play raises (a malformed `ELAPSE`) or the handler lookup does (an unknown command word; it comes after
+`move_store()`), nothing is committed and `_buffered_events`, which is assigned only after a play has returned, keeps
+its value.  NOT modelled: an exception in a LATER play of one operation (the `elapse` of a `CAST` after its `use` went
+through) — `_buffered_events` would then already hold the events of the plays that returned.  `_console` evaluates on `get_current_viewer()`, which
+restores and caches the current store; a raising debug line commits nothing either.  A caller that catches the
+exception goes on with the same engine. -/
+
+/-- the engine after an operation that was refused in its first play -/
+def refuseOp (e : Engine σ τ) : Engine σ τ := { e with cached := none }
+
+/-- the engine after a debug line whose evaluation raised -/
+def refuseConsole (e : Engine σ τ) : Engine σ τ := { e with cached := some (curStore load t0 e) }
+
+/-- a session: commands that run, and commands that are refused (caught by the caller) -/
+inductive Step where
+  | run (c : Command)
+  | refusedOp
+  | refusedConsole
+
+def runSteps (e : Engine σ τ) : List Step → Engine σ τ
+  | [] => e
+  | .run c :: r => runSteps (exec P save load clock view hash t0 e c) r
+  | .refusedOp :: r => runSteps (refuseOp e) r
+  | .refusedConsole :: r => runSteps (refuseConsole load t0 e) r
+
+/-- the commands of a session that were not refused -/
+def accepted : List Step → List Command
+  | [] => []
+  | .run c :: r => c :: accepted r
+  | _ :: r => accepted r
+
 /-- `SimulationHistory.get_hash_index`: first log whose `previous_hash` is `h` (answer: its index − 1),
     else the last log if its hash is `h`, else error (`none`).  Python returns `idx - 1`, which for
     `idx = 0` is `-1`; hence `Int`. -/
